@@ -108,14 +108,25 @@ def classify(results, metas, wd, rep, dist, known_keys=()):
                     dist["opens"] = dist.get("opens", 0) + 1
                     dist["opens_start_theorem_applies"] = dist.get("opens_start_theorem_applies", 0) + (l.split()[1] == "1")
             thm = [l.split() for l in mcases.get(k, []) if l.startswith(("thm ", "thmh "))]
-            pss = [l.split() for l in ops if l.split()[1].startswith(("ps:", "ts:"))]
+            psi = [i for i, l in enumerate(ops) if l.split()[1].startswith(("ps:", "ts:"))]
+            pss = [ops[i].split() for i in psi]
             if len(thm) == len(pss):
-                for t, o in zip(thm, pss):
+                for t, o, oi in zip(thm, pss, psi):
                     dist["sample_seeks"] = dist.get("sample_seeks", 0) + 1
-                    if t[2] in ("1", "2"):
+                    if t[2] in ("1", "2", "3"):
                         half = t[0] == "thmh"
-                        if t[2] == "2":      # only C07_pcm_seek_checked_to_link_end applies (run closed by the end-of-stream packet)
-                            dist["sample_seeks_link_end_theorem_applies"] = dist.get("sample_seeks_link_end_theorem_applies", 0) + 1      # C20_half_rate_seek_checked: position in (target - 2, target]
+                        if t[2] in ("2", "3"):      # only C07_pcm_seek_checked_to_link_end applies (run closed by the end-of-stream packet)
+                            dist["sample_seeks_link_end_theorem_applies"] = dist.get("sample_seeks_link_end_theorem_applies", 0) + 1
+                        if t[2] == "3":
+                            # C08_seek_to_end_then_end_of_file: target = end of the last link, nothing after the run: a read that follows
+                            # directly must report end of file
+                            dist["seeks_to_end_theorem_applies"] = dist.get("seeks_to_end_theorem_applies", 0) + 1
+                            nxt = ops[oi + 1].split() if oi + 1 < len(ops) else None
+                            if nxt and nxt[1].startswith("rf:"):
+                                dist["seeks_to_end_followed_by_read"] = dist.get("seeks_to_end_followed_by_read", 0) + 1
+                                if nxt[3] != "0":
+                                    bad_prop.append({"kind": "the hypotheses of theorem C08_seek_to_end_then_end_of_file hold for %s but the read that follows answers: %s"
+                                                             % (t[1], " ".join(nxt[:8])), "case": k, "meta": m, "cases_file": cfile})      # C20_half_rate_seek_checked: position in (target - 2, target]
                         dist["sample_seeks_theorem_applies" + ("_half_rate" if half else "")] = dist.get("sample_seeks_theorem_applies" + ("_half_rate" if half else ""), 0) + 1
                         # a time seek carries the converted sample target as a fourth field
                         tgt = int(t[3]) if t[1].startswith("ts:") else int(t[1][3:])
